@@ -271,3 +271,97 @@ def numeric_or_default(ctx, rid, rels, what, funcs=None):
                     n += 1
                     ctx.bad(rid, x, f"{q}: `{short(x, 60)}` replaces a value of 0.0 by the default ({what})", construct=short(x, 70))
     return n
+
+
+# --------------------------------------------------------------------------
+# positional role agreement (argument-selection / unpack-permutation defects)
+# --------------------------------------------------------------------------
+
+def _stem_eq(a, b):
+    if a == b:
+        return True
+    if len(a) >= 3 and len(b) >= 3 and (a.startswith(b) or b.startswith(a)):
+        return True
+    return False
+
+
+def _ret_name_tuples(f):
+    outs = []
+    for r in walk_local(f):
+        if isinstance(r, ast.Return) and isinstance(r.value, ast.Tuple) and r.value.elts and all(
+            isinstance(e, (ast.Name, ast.Attribute)) for e in r.value.elts
+        ):
+            outs.append([(e.id if isinstance(e, ast.Name) else e.attr) for e in r.value.elts])
+    return outs
+
+
+def role_agreement(ctx, rid, rels, func_filter=None, what=""):
+    """Callers and callees of the repository agree on the *position* of each role.
+
+    (a) `a, b, c = f(...)`: when f returns a tuple of names, a target whose name
+        is (a stem of) the name returned at another position, and not of the one
+        returned at its own position, binds the wrong component.
+    (b) `f(x, y)`: a positional argument whose name is another parameter's name
+        while that other position is given the name of this parameter is a swap.
+    Names are the repository's own vocabulary (xyz/vel/box/names, status/success/
+    stop/add, dek/kin_new ...): the rule needs no table, only resolved callees.
+    Callees are resolved by method/function name over the whole package; every
+    definition of that name must be consistent for an instance to count.
+    """
+    tree = ctx.tree
+    defs = {}
+    for m, q, f in tree.all_funcs():
+        defs.setdefault(f.name, []).append((m, q, f))
+    for m, q, f in tree.all_funcs(rels):
+        if func_filter is not None and not func_filter(q, f):
+            continue
+        for n in walk_local(f):
+            if isinstance(n, ast.Assign) and isinstance(n.targets[0], ast.Tuple) and isinstance(n.value, ast.Call):
+                cands = defs.get(last_name(n.value), [])
+                tg = [e.id if isinstance(e, ast.Name) else None for e in n.targets[0].elts]
+                seen_ok = False
+                for cm, cq, cf in cands:
+                    for rn in _ret_name_tuples(cf):
+                        if len(rn) != len(tg):
+                            continue
+                        wrong = None
+                        shared = 0
+                        for i, x in enumerate(tg):
+                            if not x or x == "_":
+                                continue
+                            if _stem_eq(x, rn[i]):
+                                shared += 1
+                                continue
+                            for j, y in enumerate(rn):
+                                if j != i and _stem_eq(x, y):
+                                    wrong = (x, i, j, cq, rn)
+                        if wrong:
+                            x, i, j, cq_, rn_ = wrong
+                            ctx.bad(rid, n, f"`{x}` is bound to component {i} (`{rn_[i]}`) of what {cq_} returns, but that function returns `{rn_[j]}` at position {j}: the components are permuted{what}",
+                                    construct=short(n, 80), detail={"callee": cq_, "returned": ", ".join(rn_)})
+                        elif shared:
+                            seen_ok = True
+                if seen_ok:
+                    ctx.ok(rid, n, "unpacked names agree by position with the names the callee returns")
+            if isinstance(n, ast.Call) and len(n.args) >= 2 and not (last_name(n) or "").startswith("__"):
+                cands = defs.get(last_name(n), [])
+                matched = False
+                for cm, cq, cf in cands:
+                    params = [p.arg for p in cf.args.posonlyargs + cf.args.args]
+                    if params and params[0] in ("self", "cls") and isinstance(n.func, ast.Attribute):
+                        params = params[1:]
+                    if any(isinstance(a, ast.Starred) for a in n.args):
+                        continue
+                    for i, a in enumerate(n.args):
+                        if not isinstance(a, ast.Name) or i >= len(params):
+                            continue
+                        if a.id == params[i]:
+                            matched = True
+                            continue
+                        if a.id in params:
+                            j = params.index(a.id)
+                            if j < len(n.args) and isinstance(n.args[j], ast.Name) and n.args[j].id != params[j]:
+                                ctx.bad(rid, n, f"arguments `{a.id}` and `{n.args[j].id}` are passed in each other's position to {cq}({', '.join(params)}){what}",
+                                        construct=short(n, 80), detail={"callee": cq})
+                if matched:
+                    ctx.ok(rid, n, "positional arguments named like the callee's parameters are in those parameters' positions")
